@@ -39,6 +39,8 @@ def features(prog, run):
     for op, ob in zip(prog["ops"], run.obs):
         f.append("op:" + op["op"])
         f.append("outcome:" + (ob["err"] or "ok"))
+        if op["op"] == "reconfigure":
+            continue
         for key in ("wells", "src_wells", "dst_wells", "vols"):
             if key in op and isinstance(op[key], tuple):
                 f.append(f"shape:{key}:{op[key][0]}")
@@ -236,6 +238,11 @@ def run_C06(ctx):
             "max_volumes": [F(950), F(200), F(100), F(50), F(25, 2), F(5, 2), F(75, 2), F(7, 4), F(3)]}
     progs = corpus_progs(ctx) + [G.gen_worklist_program(rng, prof) for _ in range(ctx.n(120))]
     stateful(ctx, res, "transfer-split", progs, ["split"])
+    # the same worklist object with `max_volume` / `auto_split` reassigned between transfers (volumes are re-used
+    # after the change): the split must follow the configuration in effect at the time of the call
+    prof2 = dict(prof, kinds=["transfer", "transfer", "reconfigure"], nops=(3, 6), p_fail=0.0)
+    progs = [G.gen_worklist_program(rng, prof2) for _ in range(ctx.n(60))]
+    stateful(ctx, res, "transfer-reconfigured", progs, ["split"])
     return res
 
 
@@ -1890,12 +1897,28 @@ def plan_exec(plan, stock_conc, dev, max_volume, with_dest, rng):
     R, C = plan.R, plan.C
     big = float(sum(float(v) for v in plan.vmax) * R * 4 + 1000)
     vr = rng.choice([1, 2, R, 8])
-    stock = impl.Trough("stock", vr, 1, min_volume=0, max_volume=big, initial_volumes=big)
-    dil = impl.Trough("diluent", rng.choice([1, R, 8]), 2, min_volume=0, max_volume=big, initial_volumes=[0, big])
+    # stock and diluent sit in a randomly chosen column of multi-column troughs whose other columns hold
+    # other liquids (so a plan executed from the wrong column is seen in composition AND consumption);
+    # sometimes both live in one trough
+    def trough(name, liquid, vrows):
+        ncol = rng.choice([1, 1, 2, 3])
+        col = rng.randrange(ncol)
+        names = [liquid if c == col else f"other{c}_{name}" for c in range(ncol)]
+        return impl.Trough(name, vrows, ncol, min_volume=0, max_volume=big, initial_volumes=[big] * ncol, column_names=names), col
+    if rng.random() < 0.2:
+        ncol = rng.choice([2, 3])
+        stock_col, dil_col = rng.sample(range(ncol), 2)
+        names = ["stock" if c == stock_col else "diluentliq" if c == dil_col else f"other{c}" for c in range(ncol)]
+        stock = dil = impl.Trough("reagents", vr, ncol, min_volume=0, max_volume=big, initial_volumes=[big] * ncol, column_names=names)
+    else:
+        stock, stock_col = trough("stock", "stock", vr)
+        dil, dil_col = trough("diluent", "diluentliq", rng.choice([1, R, 8]))
     plate = impl.Labware("dilplate", R + rng.choice([0, 1]), C + rng.choice([0, 2]), min_volume=0, max_volume=float(max(plan.vmax)) + 10)
     dest = impl.Labware("dest", R, C, min_volume=0, max_volume=1000) if with_dest else None
     wl = impl.make_wl({"dev": dev, "max_volume": max_volume})
-    kw = dict(worklist=wl, stock=stock, diluent=dil, diluent_column=1, dilution_plate=plate)
+    kw = dict(worklist=wl, stock=stock, diluent=dil, diluent_column=dil_col, dilution_plate=plate)
+    if stock_col != 0 or rng.random() < 0.5:
+        kw["stock_column"] = stock_col
     if with_dest:
         # The plan budgets only its own serial transfers; `v_destination` is the caller's choice and
         # is drawn from what is left in each column afterwards.  Asking for more than the smallest
@@ -1925,12 +1948,19 @@ def plan_exec(plan, stock_conc, dev, max_volume, with_dest, rng):
             got = f * float(stock_conc)
             if abs(got - x[r, c]) > 1e-9 * max(1, abs(x[r, c])):
                 return f"well ({r},{c}): tracked concentration {got}, plan reports {x[r, c]}"
-    used_stock = big - float(stock.volumes[0, 0])
-    used_dil = big - float(dil.volumes[0, 1])
+    for name, arr in comp.items():
+        if name not in ("stock", "diluentliq") and float(np.max(arr)) != 0:
+            return f"liquid {name!r} from a trough column the plan was not told to use ended up in the dilution plate"
+    used_stock = big - float(stock.volumes[0, stock_col])
+    used_dil = big - float(dil.volumes[0, dil_col])
     if abs(used_stock - float(plan.v_stock)) > 1e-6:
         return f"stock consumed {used_stock}, plan says {plan.v_stock}"
     if used_dil > float(plan.v_diluent) + 1e-6:
         return f"diluent consumed {used_dil} > v_diluent {plan.v_diluent}"
+    for T, used_cols in ((stock, {stock_col} | ({dil_col} if dil is stock else set())), (dil, {dil_col} | ({stock_col} if dil is stock else set()))):
+        for c in range(T.n_columns):
+            if c not in used_cols and float(T.volumes[0, c]) != big:
+                return f"column {c} of trough {T.name!r} was drawn from although the plan was told to use column(s) {sorted(used_cols)}"
     return None
 
 
